@@ -312,7 +312,7 @@ def run(ctx):
     from rules import C18 as _c18
     from ovsa.engine import Ctx as _Ctx
     sub18 = _Ctx("C18", prog, ctx.root, "quick")
-    _c18.run(sub18)
+    getattr(_c18, "_run_base", _c18.run)(sub18)
     n124 = 0
     for i_ in sub18.instances:
         if i_["rule"] != "R18.1" or not i_["inst"].endswith("handled-is-declared"):
@@ -450,3 +450,7 @@ def run(ctx):
     from rules import round3
     round3.check_stream_cursor_owner(ctx, "R12.8")
     round3.check_probe_failure_propagates(ctx, "R12.8")
+    ctx.rule("R12.9", "the mandatory application id: proc_init_end refuses a process whose streams carried no "
+             "ovni.app_id (0) or an invalid one")
+    from rules import round5
+    round5.check_appid_required(ctx, "R12.9")
